@@ -66,6 +66,8 @@ impl C13Case {
 
     fn world(&self, sched: Sched) -> World {
         let mut w = World::booted(sched, self.entropy, false);
+        // in a quarter of the cases every Ctrl-C reaches the runtime twice before the next slice
+        w.double_intr = self.entropy % 4 == 1;
         enter_program(&mut w, &self.lines());
         w
     }
@@ -410,6 +412,7 @@ impl Case for C13Case {
             .set("inspect_line_between_break_and_cont", self.inspect_line().unwrap_or("(none)"))
             .set("layout_member_breaks_only_at_column_0", self.layout_member)
             .set("post_cont_schedule_seed", self.sched_seed)
+            .set("every_interrupt_delivered_twice", self.entropy % 4 == 1)
             .set("entropy", self.entropy)
             .build()
     }
@@ -597,7 +600,7 @@ impl Property for C13 {
         }
     }
     fn rule(&self) -> &'static str {
-        "one evaluation = one generated program (2-25 lines; FOR/WHILE/GOSUB/ON/IF/INPUT/READ/DEF FN/SWAP/MID$=, optional planted runtime error) for which EVERY interrupt instant k in 0..N (N = instructions of the uninterrupted run, up to 700), every INPUT wait, every after-reply instant and (15% of the programs carry a LIST statement) every instant between two listed lines is executed with interrupt()+CONT, STOP and END are inserted at every top-level statement boundary, and 7 quantum schedules are run; in half of the programs a non-assigning direct line (PRINT of variables, SAVE, LIST, LIST -30, PRINT:SAVE:REM) is typed between every break and its CONT; 1 in 400 evaluations is a GOSUB recursion to 65 504 - 65 530 frames with an INPUT at the bottom (interrupts with the value stack almost full); distinct = distinct fingerprint of all event logs of the case; non-trivial = the uninterrupted run executed more than 5 VM instructions"
+        "one evaluation = one generated program (2-25 lines; FOR/WHILE/GOSUB/ON/IF/INPUT/READ/DEF FN/SWAP/MID$=, optional planted runtime error) for which EVERY interrupt instant k in 0..N (N = instructions of the uninterrupted run, up to 700), every INPUT wait, every after-reply instant and (15% of the programs carry a LIST statement) every instant between two listed lines is executed with interrupt()+CONT, STOP and END are inserted at every top-level statement boundary, and 7 quantum schedules are run; in a quarter of the programs every Ctrl-C is delivered twice (two interrupt() calls before the next slice); in half of the programs a non-assigning direct line (PRINT of variables, SAVE, LIST, LIST -30, PRINT:SAVE:REM) is typed between every break and its CONT; 1 in 400 evaluations is a GOSUB recursion to 65 504 - 65 530 frames with an INPUT at the bottom (interrupts with the value stack almost full); distinct = distinct fingerprint of all event logs of the case; non-trivial = the uninterrupted run executed more than 5 VM instructions"
     }
     fn assumptions(&self) -> Vec<&'static str> {
         vec![
